@@ -1077,6 +1077,12 @@ def gen_torch_library(r, kinds=("fbank", "fbank", "gabor", "si", "none")):
                 explicit_channel=r.random() < 0.3, space=False)
 
 
+def gabor_cfg(ms, style):
+    return {"name": "stft", "bank": {"name": "gabor", "scaling_function": "mel", "num_filts": 5, "sampling_rate": 8000},
+            "frame_length_ms": ms, "frame_shift_ms": 10, "frame_style": style, "use_log": True,
+            "pad_to_nearest_power_of_two": False}
+
+
 # fixed cases that must always be present (each was a defect, or is a boundary of the property)
 def corpus():
     tc = tracer_computer_cfg(4, 2, True, False, 1000, 1, "pow")
@@ -1110,6 +1116,14 @@ def corpus():
              computer={"name": "stft", "bank": {"name": "fbank", "num_filts": 4, "sampling_rate": 16000},
                        "frame_length_ms": 25, "frame_shift_ms": 10, "frame_style": "causal"},
              lines=[["u", 1, 1, 1, 900, True, "npy"], ["u", 2, 1, 1, 250, True, "npy"], ["u", 3, 1, 1, 700, True, "pt"]]),
+        # complex (Gabor) bank whose top filters wrap past the half spectrum, DFT sizes of both parities without
+        # padding: the torch tool runs the PyTorch port's mirrored pass, the kaldi tool NumPy's
+        dict(base_t, family="library", seed=2, computer=gabor_cfg(20.125, "centered"),
+             lines=[["u", 1, 1, 1, 700, True, "npy"], ["u", 2, 1, 1, 400, True, "pt"]]),
+        dict(base_t, family="library", seed=2, computer=gabor_cfg(20, "causal"),
+             lines=[["u", 1, 1, 1, 650, True, "npy"], ["u", 2, 1, 1, 300, True, "wav"]]),
+        dict(base_k, family="library", computer=gabor_cfg(25.125, "centered"), rate=8000, seed=5,
+             utts=[[1, 1, 700, 8000, True], [2, 1, 500, 8000, True]]),
         dict(base_t, computer=tracer_computer_cfg(8, 2, False, False, 1000, 2, "ramp"), posts=[51],
              lines=[["u", 1, 1, 1, 5, True, "npy"], ["u", 2, 1, 1, 6, True, "wav"], ["u", 3, 1, 1, 20, True, "pt"]]),
         # torch: seed = position in the map, also after a resume (manifest lists the first utterance)
